@@ -70,13 +70,20 @@ func (context *CHFContext) AddChfUeToUePool(ue *ChfUe, supi string) {
 }
 
 // Allocate CHF Ue with supi and add to chf Context and returns allocated ue
+// IsControlCharacter: a C0 control character or DEL - what a header line (the Location of a session) cannot carry
+func IsControlCharacter(r rune) bool {
+	return r < 0x20 || r == 0x7f
+}
+
 func (context *CHFContext) NewCHFUe(supi string) (*ChfUe, error) {
 	if ue, ok := context.ChfUeFindBySupi(supi); ok {
 		return ue, nil
 	}
 	// the SUPI also names the subscriber's CDR file (/tmp/<supi>.cdr): it has to be a single path element
 	// that a file name can hold
-	if strings.HasPrefix(supi, "imsi-") && !strings.ContainsAny(supi, "/\x00") && len(supi)+len(".cdr") <= 255 {
+	// ... and it is part of every session reference, which is handed to the consumer in a header: no control character
+	if strings.HasPrefix(supi, "imsi-") && !strings.ContainsAny(supi, "/\x00") && len(supi)+len(".cdr") <= 255 &&
+		!strings.ContainsFunc(supi, IsControlCharacter) {
 		ue := ChfUe{}
 		ue.init()
 		ue.Supi = supi
